@@ -144,6 +144,7 @@ PROPS = {
   theorems="Jp.C11.step_refines, history_refines, history_text, history_decoded, replace_out_of_range, append_*",
  ),
  "C12": dict(
+  release_too=True,
   ops={
    "split_front": dict(fields=["r"], spec=[("r", "spec_r", ident)], laws=["law_concat"]),
    "split_back": dict(fields=["r"], spec=[("r", "spec_r", ident)], laws=["law_concat"]),
@@ -186,6 +187,7 @@ PROPS = {
   theorems="Jp.C15.resolve_err_locates, resolveMut_err_locates, assign_err_locates, resolve_payload, assign_payload, label_covers_token",
  ),
  "C16": dict(
+  release_too=True,
   ops={
    "index_str": dict(fields=["r", "disp"], spec=[("r", "spec_r", ident)], laws=["law_grammar", "law_display", "law_forms", "law_truth"]),
    "index_len": dict(fields=["fl", "fli", "flu"], laws=["law_bounds"]),
